@@ -4,6 +4,8 @@
 # Meant for `vp run -- tools/multiseed.sh quick 2 3 4 5` (works from a snapshot: builds its own .build and lean/.lake first).
 set -u
 cd "$(dirname "$0")/.."
+# under `vp run --with-repo` use the snapshot of /repo, so that seed sweeps in /repo itself do not disturb this run
+[ -n "${VP_RUN_REPO:-}" ] && export VERIF_REPO=$VP_RUN_REPO
 TIER=$1; shift
 ./check --setup > multiseed-setup.log 2>&1 || { echo "setup failed"; tail -20 multiseed-setup.log; exit 2; }
 rc=0
